@@ -162,6 +162,12 @@ def abstract_path(path):
         if k == 'AddField':
             attrs = mj[4]
             flags = [mj[3] if mj[3] in ('FK', 'O2O', 'M2M') else 'col']
+            if mj[3] in ('FK', 'O2O', 'M2M') and attrs.get('to'):
+                # where the relation points: the owning model itself or
+                # another model (identity follows renames)
+                owner = model_id(mj[1])
+                target = model_id(attrs['to'].split('.')[-1])
+                flags[0] += '>self' if target == owner else '>' + target
             for a in ('db_index', 'unique', 'db_column'):
                 if attrs.get(a):
                     flags.append(a)
